@@ -15,6 +15,22 @@ SEG_POOLS = ['title', 'extdata', 'dbs', 'content', 'Nintendo', '00040000', '0f70
              '\U0001F600x', '00000000.app', 'save.bin', 'ticket.db', 'AbC.DeF', 'Straße', 'ΛΟΓΟΣ', 'ﬁle.bin', 'İstanbul']
 
 
+# characters on which the Unicode normal forms, case folding and lower-casing disagree with plain str.lower(): combining
+# sequences (NFC would compose them), precomposed letters (NFD would split them), compatibility characters (NFKC rewrites them),
+# conjoining jamo, letters whose lower/casefold differ, astral letters with case, a zero-width joiner
+CHAR_POOL = ['e\u0301', 'A\u030a', '\u30ab\u3099', '\u1100\u1161', '\u00e9', '\u00c5', '\u212b', '\u212a', '\u2126', '\ufb01', '\uff21', '\uff41',
+             '\u00df', '\u1e9e', '\u03a3', '\u03c2', '\u0130', '\u0131', '\U00010400', '\U00010428', '\u200d', '\u00b5', '\u03bc', 'a', 'B', 'z', '0',
+             '9', '.', '-', '_', ' ', '~', "'", '\u3042', '\u6f22', '\U0001f600']
+
+
+def gen_seg(rng):
+    n = rng.randint(1, 8)
+    seg = ''.join(rng.pick(CHAR_POOL) for _ in range(n))
+    if seg in ('.', '..') or seg.strip() != seg or seg.endswith('.'):
+        seg = 'x' + seg + 'y'
+    return seg
+
+
 def expected_iv(path):
     """independent derivation: lower-case, forward slashes, UTF-16LE + NUL, SHA-256, xor of the halves"""
     p = path.lower().replace('\\', '/')
@@ -32,7 +48,8 @@ def sd_key_x(slot, dev=False, seed=b'verif'):
 class C14(Check):
     prop = 'C14'
     rule = ('movable.sed keys in the three accepted lengths (and rejected ones); paths of depth 1-6 with ASCII/BMP/astral '
-            'segments, mixed case, leading slash variants, "." ".." and "//" segments; MemoryFS and OSFS (temp dir) '
+            'segments (fixed pool and random strings over combining sequences, precomposed and compatibility characters, jamo, letters '
+            'with unusual case mappings), mixed case, leading slash variants, "." ".." and "//" segments; MemoryFS and OSFS (temp dir) '
             'back-ends; access through the ID1 view and through nested opendir views; write/seek/read histories; raw '
             'backing bytes compared with the ECB-keystream encryption under the independently derived counter; the '
             'pure sd_path_to_iv function also with backslash separators; non-trivial = always')
@@ -48,7 +65,7 @@ class C14(Check):
 
     def gen(self, rng, tier, i):
         depth = rng.randint(1, 5)
-        segs = [rng.pick(SEG_POOLS) for _ in range(depth)]
+        segs = [(gen_seg(rng) if rng.chance(0.4) else rng.pick(SEG_POOLS)) for _ in range(depth)]
         if rng.chance(0.15):
             segs = ['backup' + rng.pick(['', 'foo']), '0004000000123400', 'abcdefgh', '00000001.sav'][:rng.randint(2, 4)]
         return {'segs': segs, 'keylen': rng.pick([0x10, 0x120, 0x140, 0x10, 0x11, 0x100]), 'backend': rng.pick(['mem', 'mem', 'os']),
